@@ -160,7 +160,9 @@ def check_c20(tier, seed):
               "smiles:CC(=O)", "pfx:a\n", "\na:b", "a\xa0b", "a:b\u2028"]:
         strings.append(p)
     strings = list(dict.fromkeys(strings))
-    for x in strings:
+    # second pass over a sample in reverse order: the answer must not depend on what was asked before
+    again = rng.sample(strings, min(len(strings), 4000))
+    for x in strings + list(reversed(again)):
         for f, fn in (("is_w3c_prefix", w3c.is_w3c_prefix), ("is_w3c_curie", w3c.is_w3c_curie)):
             try:
                 out = fn(x)
@@ -203,13 +205,13 @@ def _proj_conv_call(I, c):
     return impl.proj_conv(I, c)
 
 
-def discover_call(calls, uris, delims, cutoff, meta, pre, iterable="list", tag=None):
+def discover_call(calls, uris, delims, cutoff, meta, pre, iterable="list", tag=None, conv_obj=None):
     """Run curies.discover on the real code and log the call."""
     import impl
     import curies
     I = calls.I
-    conv = None
-    if pre is not None:
+    conv = conv_obj
+    if conv is None and pre is not None:
         conv = curies.Converter([impl.mk_record(r) for r in pre])
     it = {"list": lambda: list(uris), "set": lambda: set(uris), "gen": lambda: (u for u in uris), "tuple": lambda: tuple(uris)}[iterable]()
     kw = {}
@@ -235,7 +237,7 @@ def discover_call(calls, uris, delims, cutoff, meta, pre, iterable="list", tag=N
 
 
 def rand_uri(rng):
-    roots = ["urn:lsid:ex.org::", "http://e.org/x--", "http://purl.obolibrary.org/obo/", "https://e.org/", "http://w3.org/2000/01/rdf-schema#", "https://github.com/o/r/issues/",
+    roots = ["https://E.org/", "http://e.org/Gene/", "http://e.org/gene/", "http://e.org/Zeta/", "http://e.org/alpha/", "urn:lsid:ex.org::", "http://e.org/x--", "http://purl.obolibrary.org/obo/", "https://e.org/", "http://w3.org/2000/01/rdf-schema#", "https://github.com/o/r/issues/",
              "https://github.com/o/r/pull/", "urn:x:", "http://ex.com/a_", "e", ""]
     tails = ["GO_0032571", "CHEBI_1", "label", "12", "a", "x-y", "a.b", "", "é1", "٣", "a_b_c", "1#2", "seeAlso", "7/", "A1"]
     u = rng.choice(roots) + rng.choice(tails)
@@ -292,6 +294,19 @@ def check_c19(tier, seed):
         pre = rng.choice([None, None, [{"p": "obo", "u": "http://purl.obolibrary.org/obo/", "ps": [], "us": ["https://e.org/"], "pat": None}]])
         it = rng.choice(["list", "set", "gen", "tuple"])
         discover_call(calls, uris, delims, cutoff, meta, pre, it)
+        if pre is not None and k % 3 == 0:
+            # the SAME converter object: discover, extend the converter so that it recognises more, discover again
+            import impl as _impl
+            import curies as _curies
+            cobj = _curies.Converter([_impl.mk_record(r) for r in pre])
+            discover_call(calls, uris, delims, cutoff, meta, pre, "list", conv_obj=cobj)
+            u0 = rng.choice(uris)
+            cut = max(1, len(u0) - rng.randrange(1, 4))
+            try:
+                cobj.add_prefix("added%d" % k, u0[:cut])
+            except ValueError:
+                pass
+            discover_call(calls, uris, delims, cutoff, meta, "mutated", "list", conv_obj=cobj)
         sh = list(uris)
         rng.shuffle(sh)
         discover_call(calls, sh + sh[:1], delims, cutoff, meta, pre, "list")
@@ -354,6 +369,15 @@ class WebCalls(Calls):
         self.conv_objs.append(c)
         return len(self.convs)
 
+    def mutate(self, ci, fn):
+        """Apply fn to converter ci IN PLACE and register its new projection (same object, new table entry)."""
+        import impl
+        c = self.conv_objs[ci - 1]
+        fn(c)
+        self.convs.append(impl.proj_conv(self.I, c))
+        self.conv_objs.append(c)
+        return len(self.convs)
+
     def batch(self, group=150):
         b, g = super().batch(group)
         from rdflib.term import _is_valid_uri
@@ -369,7 +393,8 @@ _apps = {}
 
 
 def _clients(calls, ci):
-    key = (id(calls), ci)
+    # the apps are built once per converter OBJECT: a live service keeps serving while its converter grows
+    key = (id(calls), id(calls.conv_objs[ci - 1]))
     if key not in _apps:
         import warnings
         warnings.filterwarnings("ignore")
@@ -470,6 +495,15 @@ def check_c17(tier, seed):
                 segs.append(seg)
             ident = "/".join(segs)
             resolve_call(calls, ci, p, ident)
+            if p in ("nope", "g") and p not in known and rng.random() < 0.5:
+                # the converter learns the prefix (new record or merged synonym); the same request must now redirect
+                if rng.random() < 0.5:
+                    ci = calls.mutate(ci, lambda c, p=p: c.add_prefix(p, f"https://{p}.added.example/"))
+                else:
+                    ci = calls.mutate(ci, lambda c, p=p, r=recs[0]: c.add_prefix(r["p"], r["u"], prefix_synonyms=[p], merge=True))
+                _apps.pop((id(calls), ci), None)
+                known.append(p)
+                resolve_call(calls, ci, p, ident)
     batch, group = calls.batch(100)
     fails, stv = tlc.validate_calls(batch, spec="TraceWeb.tla", cfg="TraceWeb.cfg", timeout=1200 if quick else 3000)
     lines, violations, known_f, other = verdict("C17", "web", fails, calls, group, lambda c: {"C17"})
@@ -621,6 +655,16 @@ def check_c18(tier, seed):
           "http://purl.obolibrary.org/obo/CHEBI_", "http://purl.obolibrary.org/obo/CHEBI", "http://purl.obolibrary.org/obo/x_y"]
     for u in us:
         map_calls(ci0, u, not quick)
+    # a second service in the same process whose converter DISAGREES on the same URIs
+    alt_recs = [{"p": "CHEBI", "u": "http://identifiers.org/chebi/", "ps": [], "us": ["http://purl.obolibrary.org/obo/CHEBI_"], "pat": None},
+                {"p": "obo", "u": "http://obo.example/", "ps": [], "us": [], "pat": None}]
+    ci1 = calls.conv(alt_recs, ":", how="ctor")
+    for u in us:
+        map_calls(ci1, u, False)
+    # and a live service whose converter grows
+    ci2 = calls.mutate(ci1, lambda c: c.add_prefix("nope", "http://example.org/nope/"))
+    for u in us[:6]:
+        map_calls(ci2, u, False)
     for _ in range(6 if quick else 60):
         names = rng.sample(["a", "b", "c", "dd", "e1"], rng.randrange(1, 4))
         recs = []
@@ -868,6 +912,12 @@ def check_c15(tier, seed):
         if group and rng.random() < 0.5:
             o = rng.choice(group)
             group.append(build_ref(rng.choice(["ref", "namable"]), str(o.prefix), o.identifier, None, None))
+        for o in list(group):
+            if hasattr(o, "model_copy") and rng.random() < 0.5:
+                hash(o), o.pair, sorted([o, o])          # the source has a history of being hashed and compared
+                o2 = o.model_copy(update={rng.choice(["identifier", "prefix"]): rng.choice(ipool[:6] + ppool[:6])})
+                group.append(o2)
+                add_object_checks(o2)
         for a in group:
             for b in group:
                 add_cmp(a, b)
@@ -1113,11 +1163,15 @@ def check_c16(tier, seed):
         recs = [{"p": "GO", "u": "http://purl.obolibrary.org/obo/GO_", "ps": ["go"], "us": ["https://identifiers.org/GO:"], "pat": None},
                 {"p": "CHEBI", "u": "http://purl.obolibrary.org/obo/CHEBI_", "ps": [], "us": [], "pat": None},
                 {"p": "OBO", "u": "http://purl.obolibrary.org/obo/", "ps": [], "us": [], "pat": None}]
+        if delim == ":" and rng.random() < 0.5:
+            # a CURIE prefix that looks like a URI scheme and a URI prefix that starts with a CURIE prefix: ambiguous cells
+            recs += [{"p": "urn", "u": "http://urn.example/", "ps": [], "us": [], "pat": None},
+                     {"p": "uuid", "u": "urn:uuid:", "ps": [], "us": ["GO:alt_"], "pat": None}]
         ci = add_conv(recs, delim)
         ncols = rng.randrange(1, 4)
         col = rng.randrange(ncols)
         sep = rng.choice([None, None, ",", ";", "|"])
-        pool = ["http://purl.obolibrary.org/obo/GO_1", "https://identifiers.org/GO:2", "http://purl.obolibrary.org/obo/x", "http://nope.org/1",
+        pool = ["urn:uuid:1", "GO:alt_7", "http://late.example/x1", "http://purl.obolibrary.org/obo/GO_1", "https://identifiers.org/GO:2", "http://purl.obolibrary.org/obo/x", "http://nope.org/1",
                 f"GO{delim}1", f"go{delim}2", f"CHEBI{delim}x y", f"nope{delim}1", "nodelimiter", "", "a,b", "semi;colon", 'q"uote', "é ü"]
         table = []
         for _ in range(rng.randrange(1, 7)):
@@ -1131,6 +1185,16 @@ def check_c16(tier, seed):
         amb, s, p = rng.random() < 0.4, rng.random() < 0.4, rng.random() < 0.4
         file_op(ci, kind, amb, s, p, header, col, table, sep)
         colvals = [rng.choice(pool) for _ in range(rng.randrange(1, 6))]
+        if rng.random() < 0.4:
+            # bulk call, then the converter GROWS (a nested longer URI prefix / a prefix that was missing), then the same bulk call
+            pd_op(ci, kind, amb, False, True, colvals + ["http://late.example/x1", "http://purl.obolibrary.org/obo/GO_1"], None)
+            conv_objs[ci - 1].add_prefix("late", "http://late.example/x")
+            conv_objs[ci - 1].add_prefix("GOsub", "http://purl.obolibrary.org/obo/GO_1")
+            convs.append(impl.proj_conv(I, conv_objs[ci - 1]))
+            conv_objs.append(conv_objs[ci - 1])
+            ci = len(convs)
+            file_op(ci, kind, amb, s, p, header, col, table, sep)
+            pd_op(ci, kind, amb, False, True, colvals + ["http://late.example/x1", "http://purl.obolibrary.org/obo/GO_1"], None)
         for k2 in (kind, rng.choice(["standardize_prefix", "standardize_curie", "standardize_uri"])):
             vals = colvals if k2 in ("compress", "expand") else colvals + ["GO", "go", "nope"]
             lab = rng.choice(["str", "str", "int", "empty"])
@@ -1286,6 +1350,21 @@ def check_c14(tier, seed):
                 if fmt in ("epm", "tsv") and syn:
                     continue
                 roundtrip(ci, fmt, syn, expand)
+        if fmt in ("epm", "shacl") and rng.random() < 0.5:
+            # a sibling converter written later in the same process: same records, other patterns / synonym lists that
+            # collide when joined with commas
+            sib = []
+            for r in recs:
+                r2 = dict(r)
+                r2["pat"] = None if r["pat"] else rng.choice(PATTERNS)
+                if len(r["ps"]) >= 2 and fmt == "epm":
+                    r2["ps"] = [",".join(r["ps"])]
+                sib.append(r2)
+            try:
+                ci2 = calls.conv(sib, ":")
+                roundtrip(ci2, fmt, False, False)
+            except Exception:  # noqa: BLE001
+                pass
     shutil.rmtree(tdir, ignore_errors=True)
     batch, group = calls.batch(60)
     fails, stv = tlc.validate_calls(batch, spec="TraceIO.tla", cfg="TraceIO.cfg", timeout=1200 if quick else 3400)
